@@ -39,7 +39,7 @@ class CallMixin:
             if name in ("old", "implies", "result", "use", "hint", "iff", "fresh_ref", "subset", "union", "setminus", "mapdom",
                         "singleton", "setadd", "setdel", "mapset", "mapdel", "seqlen", "issub", "isinst", "typeof", "ite", "mapget",
                         "emptyset", "length", "inter", "exc_is", "some", "unopt", "isnone", "const", "cast", "elems", "distinct",
-                        "str_init", "str_last", "str_first", "has", "aslist", "inside", "confined", "rec_has", "rec_get", "rec_set", "log_count", "log_arg", "log_result", "log_raised", "module", "lower"):
+                        "str_init", "str_last", "str_first", "has", "aslist", "inside", "confined", "rec_has", "rec_get", "rec_set", "log_count", "log_arg", "log_result", "log_result_field", "log_raised", "module", "lower"):
                 return Callable_("dslfn", name)
         mod = env.get("__mod__")
         if mod is not None:
@@ -887,6 +887,14 @@ class CallMixin:
             lo, hi, ft = ty.field_slice(fname)
             if isinstance(dflt, PyDict) and not dflt.items and isinstance(ft, TMap):
                 dflt = empty_map(ft.key, ft.val)
+            if isinstance(dflt, PyList) and not dflt.items and isinstance(ft, TSeq):
+                dflt = empty_seq(ft.elem)
+            if isinstance(dflt, Val):
+                try:       # one conditional value instead of two paths
+                    yield st, ite_val(obj.terms[lo], Val(ft, obj.terms[lo + 1:hi]), dflt)
+                    return
+                except Exception:
+                    pass
             for st1, ok in self.branch(st, obj.terms[lo]):
                 yield st1, (Val(ft, obj.terms[lo + 1:hi]) if ok else dflt)
             return
